@@ -10,7 +10,7 @@ CLAIM = {
          "that the original port list is unchanged. Statistics replies for two requests (symbolic xids, may alias), split into 1..3 parts and "
          "interleaved with barrier/echo messages, must raise each aggregated event exactly once, after the final part, with exactly that request's "
          "entries in order."
-         " Also: a further features reply on the live connection, raw statistics events halted by a nexus listener, notifications coalesced with the barrier reply, and an early notification that restores the features-reply description.",
+         " Also: a further features reply on the live connection, raw statistics events halted by a nexus listener, notifications coalesced with the barrier reply, and an early notification that restores the features-reply description. A solver-chosen look at the port view during every history; 4- and 6-part replies; O5_stats_two_connections: two connections reassembling at the same time.",
  'note': "Trusted: CPython, z3, symx proxies/shims incl. the equality-forking SymSet/SymDict containers, the reference map in props/C17.py. Port names are "
          "concrete distinct strings per port slot; hardware addresses are assumed pairwise distinct (lookup by MAC is otherwise ambiguous).",
 }
